@@ -128,6 +128,9 @@ Rockwell ==
           F("BBR" \o BitNames[n + 1], "zprel", n * 16 + 15, ROCK), F("BBS" \o BitNames[n + 1], "zprel", n * 16 + 143, ROCK)}
          : n \in 0..7}
 
+\* Assembler spelling "<addr" (force zero page; code65.c ChkZero) on the forms that have NO zero-page sibling: the manual
+\* is silent about the prefix for this family (the 65816 section asks for an error), so acceptance is not judged
+\* (Unjudged below); the units are the only encoding the instruction set has: opcode, low byte, 00.
 ForcedZp == {[F(G1[i][1], "absyo<", G1[i][2] * 32 + 1 + 24, NMOS) EXCEPT !.alias = TRUE] : i \in 1..8}
             \cup {[F("JMP", "abso<", 76, NMOS) EXCEPT !.alias = TRUE], [F("JSR", "abso<", 32, NMOS) EXCEPT !.alias = TRUE]}
 
